@@ -351,6 +351,8 @@ class Explorer:
             if len(self.inconclusive) > 20:
                 break
             if getattr(self, "n_candidates", 0) >= self.stop_after_candidates:
+                # several refutations already collected: the remaining paths would not change the verdict
+                self.pending.clear()
                 self.notes["stopped_after_candidates"] = self.n_candidates
                 break
         self.wall_s = time.time() - t0
